@@ -135,9 +135,10 @@ def run_property(modname, tier, seed, replay=None, procs=None):
     hits = lean.grep_forbidden()
     if hits:
         report['broken'].append('forbidden tokens: ' + '; '.join(hits[:5]))
-    if tier == 'thorough' and ok and hasattr(mod, 'LEANCHECK'):
+    if tier == 'thorough' and ok:
+        # independent re-check of the compiled theorem modules (and everything they import) by leanchecker
         import subprocess
-        p = subprocess.run(['lake', 'env', 'leanchecker'] + mod.LEANCHECK, cwd=lean.LEAN_DIR, capture_output=True, text=True)
+        p = subprocess.run(['lake', 'env', 'leanchecker'] + getattr(mod, 'LEANCHECK', imports), cwd=lean.LEAN_DIR, capture_output=True, text=True)
         report['leanchecker'] = 'ok' if p.returncode == 0 else (p.stdout + p.stderr)[-500:]
         if p.returncode != 0:
             report['broken'].append('leanchecker: ' + report['leanchecker'])
